@@ -137,7 +137,10 @@ def variantNamesNodup (vs : List String) : Bool := (vs.map nonDigitName).eraseDu
 def findVariant (vs : List (String × Option TyExpr)) (v : String) : Option (Option TyExpr) :=
   (vs.find? fun x => nonDigitName x.1 == nonDigitName v).map (·.2)
 
-def implOk (a : Ast) (m : Module) (i : Impl) : Bool :=
+/-- the part of `implOk` that is about *types*: the decoder of a declaration produces exactly the type the type emitter
+    declared — parameter list, every field, every variant payload, every pattern against the scrutinee's type
+    (proved for every supported specification: `Lemmas/Fits`, `C07_decoders_fit_declarations`) -/
+def implFits (a : Ast) (m : Module) (i : Impl) : Bool :=
   match findDecl m i.name with
   | none => false
   | some d =>
@@ -151,7 +154,7 @@ def implOk (a : Ast) (m : Module) (i : Impl) : Bool :=
           | .optional n ty => n == dn && tyEq (.optBox (namedTy m ty)) dt && (findDecl m ty).isSome)
      | .union u, .union _ _ vs =>
        let st := scrutTyOf a u.disc
-       st != .other && u.swVar != "v" && isIdent (safeName u.swVar) &&
+       st != .other &&
        u.arms.all (fun arm => patOk a st arm.pat &&
          (match findVariant vs arm.variant, arm.payload with
           | some (some t), some fd => fd.fits a m t
@@ -164,6 +167,15 @@ def implOk (a : Ast) (m : Module) (i : Impl) : Bool :=
        arms.all (fun (p, mem) => (match p with | .numeric n => 0 ≤ n && n < 2^31 | .str _ => false) && (vs.any fun x => x.1 == mem))
      | .typedef fd, .typedef _ _ _ inner => fd.fits a m inner
      | _, _ => false)
+
+/-- the part of `implOk` that is about *names*: the switch variable is bound by a `let` in the emitted decoder, next to the
+    buffer `v` -/
+def implHygiene (i : Impl) : Bool :=
+  match i.body with
+  | .union u => u.swVar != "v" && isIdent (safeName u.swVar)
+  | _ => true
+
+def implOk (a : Ast) (m : Module) (i : Impl) : Bool := implFits a m i && implHygiene i
 
 /-- does the module bind `d` (`d => return Err(..)`) / `c` (`c if c == ..`) in a pattern? -/
 def usesD (m : Module) : Bool :=
